@@ -128,7 +128,12 @@ def run_gosym(job, harness, tier, tmp, ovdir, solver="z3-new", shard=None, nodom
     if job.get("assert_exclude"):
         cmd += ["-assert-exclude", job["assert_exclude"]]
     t0 = time.time()
-    r = subprocess.run(cmd, env=GOENV, capture_output=True, text=True)
+    budget = lim.get("timeout", 900 if tier == "quick" else 3600)
+    try:
+        r = subprocess.run(cmd, env=GOENV, capture_output=True, text=True, timeout=budget + 600)
+    except subprocess.TimeoutExpired as e:
+        class _R: pass
+        r = _R(); r.stderr = f"gosym killed after {budget + 600}s (hard limit)"
     try:
         res = json.load(open(out))
     except Exception as e:
